@@ -125,6 +125,8 @@ pub fn queue_parameters(arg: u32) -> hyperqueue::server::autoalloc::QueueParamet
 }
 
 pub const N_RQ_PALETTE: usize = 14;
+/// Requests 14.. exist only for generator version >= 1 (see `request`)
+pub const N_RQ_PALETTE_V1: usize = 17;
 
 fn entry(name: &str, policy: AllocationRequest) -> ResourceRequestEntry {
     ResourceRequestEntry {
@@ -149,6 +151,32 @@ fn rq(entries: Vec<ResourceRequestEntry>) -> ResourceRequest {
 pub fn request(p: usize) -> ResourceRequestVariants {
     use AllocationRequest::*;
     let v = |r: ResourceRequest| ResourceRequestVariants::new(smallvec![r]);
+    match p {
+        // variants that every worker can run and that differ only in the amount
+        14 => {
+            return ResourceRequestVariants::new(smallvec![
+                rq(vec![entry("cpus", Compact(units(2)))]),
+                rq(vec![entry("cpus", Compact(units(1)))]),
+            ]);
+        }
+        15 => {
+            return ResourceRequestVariants::new(smallvec![
+                rq(vec![
+                    entry("cpus", Compact(units(1))),
+                    entry("gpus", Compact(units(1)))
+                ]),
+                rq(vec![entry("cpus", Compact(units(2)))]),
+            ]);
+        }
+        16 => {
+            return ResourceRequestVariants::new(smallvec![
+                rq(vec![entry("cpus", Compact(ResourceAmount::new(0, 5000)))]),
+                rq(vec![entry("cpus", Compact(units(1)))]),
+                rq(vec![entry("cpus", Compact(units(3)))]),
+            ]);
+        }
+        _ => {}
+    }
     match p % N_RQ_PALETTE {
         0 => v(rq(vec![entry("cpus", Compact(units(1)))])),
         1 => v(rq(vec![entry("cpus", Compact(units(2)))])),
